@@ -19,3 +19,10 @@ add("C28", "exploration", "bounded-exhaustive enumeration of schema/payload shap
     TB + "; export hook VerifSerializeTG", "seqmc")
 add("C29", "exploration", "bounded-exhaustive enumeration of schemas x rows x alignment through SerializeColumnsToRows -> RowSeries.ToColumnSeries",
     "all 1463 schemas of <=3 columns over the fixed-width types x 0-3 rows x align on/off, boundary values, bitwise comparison of names, order, element types and values", TB, "seqmc")
+AG = "Go toolchain; the group-by reference model in the check; aggregates driven through sqlparser.AggRunner.Run as the query pipeline does"
+add("C21", "exploration", "bounded-exhaustive enumeration of ordered row sequences against a group-by-window reference",
+    "every ordered sequence of <=3 rows (thorough adds length 4) over 6 instants x 5 prices, 8 candle timeframes, tick and candle inputs with Sum/Avg columns; candles compared with a reference that admits any earliest/latest row for open/close on timestamp ties", AG + "; UTC", "seqmc")
+add("C22", "exploration", "bounded-exhaustive differential check of composed vs direct aggregation",
+    "the C21 sequences x 7 (fine, coarse) pairs: candlecandler(coarse) over tickcandler(fine) output vs tickcandler(coarse) directly", AG + "; UTC", "seqmc")
+add("C23", "exploration", "bounded-exhaustive enumeration of typed columns and epoch sequences against reference aggregates",
+    "every tuple of length 0-3 (thorough 0-4) over each numeric type's boundary alphabet for count/min/max/avg, every difference sequence of length <=4 x 6 thresholds for gap", AG, "seqmc")
